@@ -25,6 +25,7 @@ def run(tier):
         H.window_cursor(prog, rep, L)
         H.request_serialisation(prog, rep)
         H.framing_order(prog, rep)
+        H.number_bases(prog, rep)
         H.budget(prog, rep, L)
     n = len(configs)
     rep.require_min("W1-cursor", 4 * n)
